@@ -72,6 +72,27 @@ impl HashCtx {
                     Err(_) => "err".into(),
                 })
             }
+            // the same two byte-level entry points with a caller whose reader fails after delivering its bytes, or whose
+            // output is too small: the call must fail AND leave nothing behind that changes a later call
+            "pub_hash_rfail" | "pub_hash_wfail" | "pub_poseidon_rfail" | "pub_poseidon_wfail" => {
+                struct FailingReader(Cursor<Vec<u8>>);
+                impl std::io::Read for FailingReader {
+                    fn read(&mut self, buf: &mut [u8]) -> std::io::Result<usize> {
+                        let n = self.0.read(buf)?;
+                        if n == 0 { Err(std::io::Error::new(std::io::ErrorKind::Other, "injected read failure")) } else { Ok(n) }
+                    }
+                }
+                let b = parse_bytes(w[1])?;
+                let mut small = [0u8; 8];
+                let mut big = Cursor::new(Vec::new());
+                let r = match w[0] {
+                    "pub_hash_rfail" => rln::public::hash(FailingReader(Cursor::new(b)), &mut big),
+                    "pub_hash_wfail" => rln::public::hash(Cursor::new(b), &mut small[..]),
+                    "pub_poseidon_rfail" => rln::public::poseidon_hash(FailingReader(Cursor::new(b)), &mut big),
+                    _ => rln::public::poseidon_hash(Cursor::new(b), &mut small[..]),
+                };
+                Some(match r { Ok(()) => format!("ok {}", show_bytes(&big.into_inner())), Err(_) => "err".into() })
+            }
             "ffi_hash" => {
                 let b = parse_bytes(w[1])?;
                 let ib = ffi_buf(&b);
